@@ -281,6 +281,11 @@ class netcdf_indexer:
         if data.dtype.kind == "S":
             data = data.astype("U", copy=False)
 
+        # Make sure that the data have the native byte order (a
+        # variable may have been stored with another one)
+        if data.dtype.byteorder in "<>":
+            data = data.astype(data.dtype.newbyteorder("="))
+
         # ------------------------------------------------------------
         # Copy the data
         # ------------------------------------------------------------
